@@ -6139,7 +6139,11 @@ class CodegenCtx:
         result.add(f"{self.program_name}_result_t {self.program_name}_feed({start_typename}start, const uint8_t *end, {self.program_name}_state_t *state) {{")
         with result as contents:
             if self._needs_end_check():
-                contents.add(f"if ({'*start' if ProgramData.do(ProgramFlag.INDIRECT_START_PTR) else 'start'} == end) return {self.program_name.upper()}_OK;")
+                # (an empty chunk changes nothing: OK, except that a parser that has failed keeps saying so)
+                empty_result = f"{self.program_name.upper()}_OK"
+                if self.generic_fail_state in self.dfa.states:
+                    empty_result = f"(state->state == {self.dfa.states.index(self.generic_fail_state)} ? {self.program_name.upper()}_FAIL : {self.program_name.upper()}_OK)"
+                contents.add(f"if ({'*start' if ProgramData.do(ProgramFlag.INDIRECT_START_PTR) else 'start'} == end) return {empty_result};")
                 contents.add()
                 # Generate an explicit input check 
             # Generate the `inval` variable
